@@ -129,7 +129,147 @@ def rebound_public_names(P, pinned):
                             same = q in by_name[nm]
                     if not same:
                         out.append((m.relpath, node.lineno, ast.unparse(node)[:70]))
+        # a star import that brings in another function of that name after this module bound the pinned one
+        for nm, (base, line) in getattr(m, "star_imported", {}).items():
+            if nm in by_name:
+                q = P.canonical(f"{base}.{nm}")
+                if q not in by_name[nm]:
+                    out.append((m.relpath, line, f"from {base} import * (binds {nm})"))
+        # a function of its own named like a pinned public function that the module imports: wrapped re-export
+        for nm, fi in m.functions.items():
+            if nm in by_name and fi.qualname.split("#")[0] not in by_name[nm]:
+                # (a new helper that merely shares the name of a pinned function of another module is only a problem
+                # where users get it in place of that function: in a package __init__, or when the module imports it)
+                if m.path.endswith("__init__.py") or any(isinstance(st, ast.ImportFrom) and any((a.asname or a.name) == nm for a in st.names) for st in ast.walk(m.tree)):
+                    out.append((m.relpath, fi.node.lineno, f"def {nm} replaces the imported {nm}"))
     return sorted(set(out))
+
+
+def foreign_module_stores(P):
+    """[(relpath, lineno, text)] - assignments to an attribute of another module of the package (or setattr on it): the
+    importing module re-binds a name *inside* the module where the analysed functions look it up"""
+    out = []
+    for m in P.modules.values():
+        modnames = {}
+        for local, dotted in m.imports.items():
+            if dotted in P.modules:
+                modnames[local] = dotted
+        for n in ast.walk(m.tree):
+            targets = []
+            if isinstance(n, ast.Assign):
+                targets = n.targets
+            elif isinstance(n, (ast.AugAssign, ast.AnnAssign)):
+                targets = [n.target]
+            for t in targets:
+                if isinstance(t, ast.Attribute):
+                    d = _dotted(t.value)
+                    if d is None:
+                        continue
+                    head, *rest = d.split(".")
+                    full = ".".join([m.imports.get(head, head)] + rest)
+                    if full in P.modules and full != m.name:
+                        out.append((m.relpath, n.lineno, ast.unparse(t)[:70] + " = ..."))
+            if isinstance(n, ast.Call) and isinstance(n.func, ast.Name) and n.func.id in ("setattr", "delattr") and n.args:
+                d = _dotted(n.args[0])
+                if d is not None:
+                    head, *rest = d.split(".")
+                    full = ".".join([m.imports.get(head, head)] + rest)
+                    if full in P.modules and full != m.name:
+                        out.append((m.relpath, n.lineno, ast.unparse(n)[:70]))
+    return sorted(set(out))
+
+
+OVERWRITE_KW = {"overwrite_input", "overwrite_a", "overwrite_b", "overwrite_ab", "overwrite_x", "overwrite_y", "overwrite_data"}
+
+
+def overwrite_sites(m):
+    """[(lineno, text)] - library calls asked to destroy their input (np.median(x, overwrite_input=True) partially
+    sorts x in place; scipy.linalg's overwrite_a / overwrite_b likewise): the array is a view of, or simply is, data that
+    is used afterwards or belongs to the caller"""
+    out = []
+    for n in ast.walk(m.tree):
+        if isinstance(n, ast.Call):
+            for k in n.keywords:
+                if k.arg in OVERWRITE_KW and not (isinstance(k.value, ast.Constant) and k.value.value is False):
+                    out.append((n.lineno, ast.unparse(n)[:70]))
+    return sorted(set(out))
+
+
+def scale_name_clashes(P):
+    """[(relpath, lineno, text)] - two classes registered with matplotlib's scale registry under one name (the registry
+    is keyed by the class attribute `name`, looked up through the MRO: the later registration silently wins)"""
+    regs = []
+    for m in P.modules.values():
+        for n in ast.walk(m.tree):
+            if isinstance(n, ast.Call) and isinstance(n.func, (ast.Attribute, ast.Name)) and (n.func.attr if isinstance(n.func, ast.Attribute) else n.func.id) == "register_scale" and n.args and isinstance(n.args[0], ast.Name):
+                cands = [c for c in P.classes.values() if c.name == n.args[0].id]
+                if len(cands) == 1:
+                    ci = cands[0]
+                    nm = None
+                    for c in ci.mro():
+                        if "name" in c.class_attrs and isinstance(c.class_attrs["name"], ast.Constant):
+                            nm = c.class_attrs["name"].value
+                            break
+                    regs.append((nm, ci.qualname, m.relpath, n.lineno))
+    out = []
+    seen = {}
+    for nm, q, rel, line in regs:
+        if nm in seen and seen[nm] != q:
+            out.append((rel, line, f"{q.split('.')[-1]} registered as {nm!r} like {seen[nm].split('.')[-1]}"))
+        seen.setdefault(nm, q)
+    return out
+
+
+def check_restore(ctx, rule):
+    """Clause (c): an object that comes back from pickle / copy is the object that went in.  For every class of the
+    package that defines `__setstate__` (with or without `__getstate__`): the constructor is interpreted with symbolic
+    arguments, the state is taken (`__getstate__`, else the instance dictionary), a blank instance is restored from it,
+    and every attribute the constructor had set must come back as the same term - an interpolator rebuilt over another
+    column, a scale recomputed from other fields, a dropped attribute are reported."""
+    from .rules.common import std_policy
+    from .symeval import Interp, sym_num
+    from .values import DictV, FuncV, Inst
+
+    P = ctx.P
+    for ci in sorted(P.classes.values(), key=lambda c: c.qualname):
+        ss = ci.methods.get("__setstate__")
+        if ss is None:
+            continue
+        gs = ci.lookup("__getstate__")
+        init = ci.lookup("__init__")
+        ctx.touch(ss.qualname)
+        it = Interp(P, policy=std_policy(False))
+        problems = []
+
+        def run(x):
+            kwargs = {p: sym_num(p) for p in (init.params[1:] if init is not None else ci.all_fields())}
+            inst = x._construct(ci, [], kwargs, ci.node)
+            before = dict(inst.attrs)
+            state = x.call(FuncV(gs, None, inst, gs.cls), [], {}, gs.node, None) if gs is not None else DictV(dict(inst.attrs))
+            if not isinstance(state, DictV):
+                raise AnalysisError(f"{ci.qualname}.__getstate__ does not return a dictionary the analysis can follow")
+            new = Inst(ci, {}, "self")
+            x.call(FuncV(ss, None, new, ci), [state], {}, ss.node, None)
+            return before, dict(new.attrs)
+
+        n_paths = 0
+        for p in it.explore(run):
+            if p.outcome != "return" or p.value is None:
+                continue
+            n_paths += 1
+            before, after = p.value
+            for k, v in before.items():
+                if k not in after:
+                    problems.append(f"{k} is not restored")
+                elif it.to_nf(after[k]) != it.to_nf(v):
+                    problems.append(f"{k} is restored as another value")
+        if not n_paths:
+            raise AnalysisError(f"{ci.qualname}: no constructor path could be followed through __getstate__ / __setstate__")
+        ctx.check(
+            not problems, rule, ci.qualname + ":restored object", ss.where(),
+            "an object restored from its pickled / copied state has, attribute by attribute, what its constructor had put there",
+            signature="restore " + "; ".join(sorted(set(problems)))[:150], problems=sorted(set(problems))[:8],
+        )
 
 
 def _selftest():
@@ -168,6 +308,26 @@ def check(ctx, rule, pinned_path):
             signature="global configuration " + "; ".join(t for _l, t in sites)[:150], sites=[f"line {l}: {t}" for l, t in sites],
             nontrivial=False,
         )
+    for mn, m in sorted(P.modules.items()):
+        sites = overwrite_sites(m)
+        ctx.check(
+            not sites, rule, f"{mn}:inputs are not destroyed", m.relpath,
+            "no library routine is asked to overwrite its input (overwrite_input=True, overwrite_a=True ...): the array is used afterwards or belongs to the caller - also when the call sits in a __str__ that only a log handler runs",
+            signature="overwrite " + "; ".join(t for _l, t in sites)[:150], sites=[f"line {l}: {t}" for l, t in sites], nontrivial=False,
+        )
+    fm = foreign_module_stores(P)
+    ctx.check(
+        not fm, rule, "bluebonnet:modules bind their own names", "src/bluebonnet",
+        "no module assigns to an attribute of another module of the package: the functions defined there look their helpers up in that namespace when they are called",
+        signature="foreign module store " + "; ".join(t for _f, _l, t in fm)[:150], sites=[f"{f}:{l}: {t}" for f, l, t in fm], nontrivial=False,
+    )
+    sc = scale_name_clashes(P)
+    ctx.check(
+        not sc, rule, "bluebonnet:one axis scale per name", "src/bluebonnet",
+        "every class handed to matplotlib's register_scale has its own `name` (the registry is keyed by it; a subclass that inherits the name replaces its parent's scale)",
+        signature="scale name " + "; ".join(t for _f, _l, t in sc)[:150], sites=[f"{f}:{l}: {t}" for f, l, t in sc], nontrivial=False,
+    )
+    check_restore(ctx, rule)
     pinned = json.load(open(pinned_path)) if os.path.exists(pinned_path) else {}
     bad = rebound_public_names(P, pinned)
     ctx.check(
